@@ -16,3 +16,15 @@ package kgo
 //@   pure
 //@   ensures r == seqwrap(sequence, increment)
 //@   ensures 0 <= r
+
+// ---- C06 / C16: fetch parsing kernels ----
+
+// The record decoder of the (published) kmsg module: only its frame is used here.
+//@ extern func (v *kmsg.Record) ReadFrom(src []byte) (err error)
+//@   modifies *v
+
+// readRawRecordsInto never panics, whatever bytes it is given, and returns a prefix of rs.
+//@ func readRawRecordsInto(rs []kmsg.Record, in []byte) (out []kmsg.Record, nheaders int)
+//@   prop C06 C16
+//@   nopanic
+//@   ensures exists k in 0..len(rs)+1 :: out == rs[:k]
